@@ -38,6 +38,9 @@ def do_call(ex, n, st):
                 continue
             raise OutOfSubset('**kwargs call at line %d' % n.lineno)
         kwargs[kw.arg] = ex.ev(kw.value, st)
+    if fn.pt.kind == 'mtag' and isinstance(n.func, ast.Attribute):
+        base = ex.ev(n.func.value, st)
+        return call_method(ex, base, n.func.attr, args, kwargs, st, n)
     return apply(ex, fn, args, kwargs, st, n)
 
 
